@@ -26,6 +26,7 @@ def run(tier, seed):
     from pyspark.sql import SparkSession
     import pyspark.sql.types as T
     import visions
+    import visions.functional  # noqa: F401
     import visions.types as vt
     from visions.typesets import CompleteSet, GeometrySet, StandardSet, VisionsTypeset
     from visions.types.generic import Generic
@@ -149,6 +150,34 @@ def run(tier, seed):
                     reqs.append({"op": "spark", "nodes": [str(n) for n in ts.relation_graph.nodes], "dt": cls})
                     cases.append({"typeset": tn, "dt": cls, "got": got})
                     nontriv.add(canon([tn, cls]))
+        # two different frames with one and the same schema, and short-lived typesets on one frame: the answer belongs
+        # to (typeset, this frame), never to an earlier call
+        dfa = spark.createDataFrame(rows * 2, sch)
+        dfb = spark.createDataFrame(rows * 3, sch)
+        for tn in ("standard", "complete", "standard+Date"):
+            ts = typesets[tn]
+            for first, second in ((dfa, dfb), (dfb, dfa)):
+                try:
+                    _ = ts.cast_to_detected(first)
+                    back = ts.cast_to_detected(second)
+                    back2 = visions.functional.cast_to_detected(second, ts)
+                except Exception as e:  # noqa
+                    fails.append({"property": "C17", "signature": "spark-detect-raises", "what": type(e).__name__, "typeset": tn})
+                    continue
+                evals += 1
+                if back is not second or back2 is not second:
+                    fails.append({"property": "C17", "signature": "cast-not-identity",
+                                  "what": "cast_to_detected of a second frame with the same schema returned another DataFrame", "typeset": tn})
+        for rnd in range(40 if tier == "quick" else 400):
+            with warnings.catch_warnings():
+                warnings.simplefilter("ignore")
+                t1, t2 = StandardSet(), StandardSet() + vt.Date
+            r1, r2 = str(t1.detect_type(dfa)["d"]), str(t2.detect_type(dfa)["d"])
+            evals += 2
+            if (r1, r2) != ("Object", "Date"):
+                fails.append({"property": "C17", "signature": "mapping:DateType",
+                              "what": "date column detected as %s under StandardSet and %s under StandardSet+Date (round %d of alternating short-lived typesets)" % (r1, r2, rnd)})
+                break
         resps = Driver().batch(reqs)
         for case, resp in zip(cases, resps):
             if "err" in resp or resp["path"][-1] != case["got"]:
